@@ -722,6 +722,14 @@ class Prov:
                 if a["k"] in ("copy", "move") and not any(e["k"] == "field" for e in a["place"]["p"]):
                     for root, path in self._mut_roots(fn, a["place"]["l"], 0, set()):
                         idx.setdefault(root, []).append((bid, t, ai, path))
+                    # the argument tuple of a closure call (`action(&mut x)` is `Fn::call(&action, (&mut x,))`)
+                    if t["callee"].get("trait") in ("std::ops::Fn", "std::ops::FnMut", "std::ops::FnOnce") and not a["place"]["p"]:
+                        ds = self.defs(fn).get(a["place"]["l"], [])
+                        if len(ds) == 1 and ds[0][0] == "assign" and ds[0][3]["rv"]["k"] == "aggregate" and ds[0][3]["rv"].get("agg") == "tuple":
+                            for op in ds[0][3]["rv"]["ops"]:
+                                if op["k"] in ("copy", "move") and not op["place"]["p"]:
+                                    for root, path in self._mut_roots(fn, op["place"]["l"], 0, set()):
+                                        idx.setdefault(root, []).append((bid, t, ai, path))
         self._mut_idx[fn.key] = idx
         return idx
 
